@@ -44,6 +44,8 @@ def _body(cs, a, b, k, x):
         for _ in range(fsusp):
             await Suspend(W)
         val = ("val", key, len(invocations))
+        if key == 1 and P("none_value", False):
+            val = None  # a legitimate result
         produced.setdefault(key, []).append(val)
         return val
 
@@ -150,6 +152,10 @@ def _body(cs, a, b, k, x):
             ok = fail("lru_cache:hit-miscounted-at-quiescence") and ok
         if not hit and (i1.misses != i0.misses + 1 or i1.hits != i0.hits):
             ok = fail("lru_cache:miss-miscounted-at-quiescence") and ok
+        if P("none_value", False) and key == 1 and not hit and any(r[1] == 1 for r in results):
+            # the value None was produced and stored: it must be served like any other value
+            if maxsize is None:
+                ok = fail("lru_cache:stored-None-result-not-served-as-a-hit", (key,)) and ok
         if hit and not any(r1[1] is p for p in produced.get(key, [])):
             ok = fail("lru_cache:cached-value-never-produced", (key, r1)) and ok
         r2 = D.call(cf(key))
@@ -209,6 +215,7 @@ def jobs(tier):
         add(T=2, CALLS=(1 if q else 2), KEYS=2, FSUSP=2, ms=ms, KEYSPACE=2)
         add(T=3, CALLS=1, KEYS=2, FSUSP=1, ms=ms, KEYSPACE=2)
         add(T=2, CALLS=2, KEYS=2, FSUSP=1, ms=ms, KEYSPACE=2, pats="collide")
+        add(T=2, CALLS=2, KEYS=2, FSUSP=1, ms=ms, KEYSPACE=2, none_value=True)
         add(T=2, CALLS=2, KEYS=2, FSUSP=1, ms=ms, KEYSPACE=2, extra="clear", X=1)
         add(T=2, CALLS=2, KEYS=2, FSUSP=1, ms=ms, KEYSPACE=2, extra="discard", X=1)
         add(T=2, CALLS=2, KEYS=2, FSUSP=1, ms=ms, KEYSPACE=2, K=2)
